@@ -5,6 +5,7 @@ CONSTANTS
   Triples = FALSE
   Pool <- PoolOps
   NDocs = 343
+  Quads = "rep"
 INVARIANTS
   Check
 CHECK_DEADLOCK FALSE
